@@ -145,7 +145,24 @@ fn pick_edit(p: &crate::gen::sem::Program, class: &str, pick: usize) -> Option<E
             let text = &p.files.get(file)?.1;
             // non-trivia tokens by the repository's own lexer
             let (toks, _) = super::c14::impl_lex(text);
-            let toks: Vec<_> = toks.into_iter().filter(|t| !t.0.is_trivia()).collect();
+            // directives (and their macro names) are not tokens the parser sees
+            use syntax::token_kind::TokenKind as K;
+            let mut keep = Vec::new();
+            let mut after_directive = false;
+            for t in toks.into_iter().filter(|t| !t.0.is_trivia()) {
+                let is_dir = matches!(t.0, K::Ifdef | K::Ifndef | K::Else | K::Endif | K::Define);
+                if is_dir {
+                    after_directive = matches!(t.0, K::Ifdef | K::Ifndef | K::Define);
+                    continue;
+                }
+                if after_directive && t.0 == K::Id {
+                    after_directive = false;
+                    continue;
+                }
+                after_directive = false;
+                keep.push(t);
+            }
+            let toks = keep;
             // `}` is not locally detectable (the block just goes on), and `=` before `{` reads as a bit-range suffix
             let cands: Vec<usize> = (0..toks.len())
                 .filter(|&i| matches!(&text[toks[i].1..toks[i].2], ";" | "=" | ":"))
